@@ -726,7 +726,7 @@ func (e *SpecEnv) evalCall(n ECall) Val {
 				dn, _ := g.mapNames(mt)
 				ds, _ := g.mapSorts(mt)
 				hd := g.heapGet(e.st, dn, ds)
-				return Val{T: sIte(sEq(x.T, "0"), "0", fmt.Sprintf("(%s %s %s)", mapLenFn(g.sortOf(mt.Key())), hd, x.T)), S: sInt, G: types.Typ[types.Int]}
+				return Val{T: sIte(sEq(x.T, "0"), "0", mapLenTerm(g.sortOf(mt.Key()), hd, x.T)), S: sInt, G: types.Typ[types.Int]}
 			}
 		}
 		g.errorf("spec: len of %s", n.Args[0].String())
